@@ -134,10 +134,10 @@ def run_case(ctx, name, params):
         pt = Patches()
 
         def mk(orig):
-            def fast_nondominated_sorting(self, individuals):
+            def fast_nondominated_sorting(self, individuals, *a, **kw):
                 snap = [list(i.costs_signed) for i in individuals]
                 members = list(individuals)
-                res = orig(self, individuals)
+                res = orig(self, individuals, *a, **kw)
                 ids = [i.id for i in members]
                 if len(set(ids)) == len(ids):
                     judge(ctx, snap, members, "insitu", {"algo": setup["algo"]})
